@@ -2,6 +2,12 @@
 //! Tokens, in document order:  R:1,2,3 (registers array; R: alone = empty)  B:4  H:mul,add,sh,seed
 //! X<name>:<int> (unknown field)  Bs:<text> (b as a string = wrong type)  Rs:<text>  Hn (hasher null)
 pub fn tokens_to_json(toks: &[&str]) -> String {
+    // a leading `A` token: the values only, as a positional (JSON array) document
+    if toks.first() == Some(&"A") {
+        let obj = tokens_to_json(&toks[1..]);
+        let v: Vec<String> = split_top_level(&obj[1..obj.len() - 1]).iter().map(|f| f.split_once(':').map(|x| x.1.to_string()).unwrap_or_default()).collect();
+        return format!("[{}]", v.join(","));
+    }
     let mut fields: Vec<String> = vec![];
     for t in toks {
         let (k, v) = match t.split_once(':') {
@@ -50,4 +56,36 @@ pub fn json_to_tokens(json: &str) -> String {
         }
     }
     out.join(" ")
+}
+
+/// split `"a":1,"b":[1,2],"c":{"x":1}` at the commas of nesting depth 0
+fn split_top_level(s: &str) -> Vec<String> {
+    let mut out = vec![];
+    let mut depth = 0i32;
+    let mut cur = String::new();
+    let mut in_str = false;
+    for ch in s.chars() {
+        match ch {
+            '"' => {
+                in_str = !in_str;
+                cur.push(ch);
+            }
+            '[' | '{' if !in_str => {
+                depth += 1;
+                cur.push(ch);
+            }
+            ']' | '}' if !in_str => {
+                depth -= 1;
+                cur.push(ch);
+            }
+            ',' if !in_str && depth == 0 => {
+                out.push(std::mem::take(&mut cur));
+            }
+            _ => cur.push(ch),
+        }
+    }
+    if !cur.is_empty() {
+        out.push(cur);
+    }
+    out
 }
